@@ -155,6 +155,26 @@ func propC04(c *Ctx) {
 			c.seed("han-compat-only", v, pick(hanCompat, 3))
 		}
 	}
+	// a reorder-sensitive cluster slid across every byte offset around typical buffer/window sizes:
+	// normalisation done in chunks, or into a fixed buffer, goes wrong exactly at such a cut
+	clusters := []string{"éﾞ", "á̖", "ཱཱྀ", "ガ", "ệ", "각"}
+	sizes := []int{64, 128, 256}
+	span := 3
+	if !c.quick {
+		sizes = []int{32, 64, 128, 256, 512, 1024, 4096}
+		span = 9
+	}
+	for _, k := range sizes {
+		for off := k - span; off <= k+span; off++ {
+			cl := clusters[(off+k)%len(clusters)]
+			if !c.quick {
+				cl = clusters[c.rng.Intn(len(clusters))]
+			}
+			long := strings.Repeat("a", off) + cl + " tail"
+			c.seed("cluster-at-offset:passphrase", eng, long[8:]) // the salt is "mnemonic"+passphrase: 8 bytes earlier
+			c.seed("cluster-at-offset:mnemonic", long, "p")
+		}
+	}
 	c.seed("non-mnemonic", "this is not a mnemonic at all", "pw")
 	c.seed("non-mnemonic", strings.Repeat("abandon ", 12), "")
 	c.seed("non-mnemonic", "zoo", "")
